@@ -8,7 +8,8 @@ PROP_V = "Props/Properties_C12.v"
 GEN_MODULES = ["Consts", "Sites", "Time"]
 FLOW_FILES = ['nsync_semaphore_futex.c']
 REPLAY_HINT = "VRT_SEED=<seed> VRT_INJECT=<pct> _work/h/sem_mix  (add VRT_TRACE=<file>; replay through the model with coq/_rp_sem_replay/sem_replay <file> coq/Gen/Sites.json)"
-PARTIAL = ["Progress is proved as a safety decomposition (C12_no_lost_post: a sleeping owner with a positive count has a wake-up pending; C12_solo: an owner "
+PARTIAL = ["the theorems and the lock-step tie are about the FUTEX semaphore (platform/linux); the std::mutex / condition_variable semaphore of the pure C++11 platform is exercised by C15's real-library grid only (F18 was found there), the posix-mutex, sem_t, win32 and macOS semaphores not at all",
+           "Progress is proved as a safety decomposition (C12_no_lost_post: a sleeping owner with a positive count has a wake-up pending; C12_solo: an owner "
            "awake inside a call completes it within 4 own steps; C12_future: an idle owner's next call returns 0 in 2 steps without entering the kernel; "
            "C12_conservation: successful Ps + count + pending posts = posts made); the temporal statement under fair scheduling (Definition "
            "C12_fair_wakeup_full) is not proved",
